@@ -13,7 +13,7 @@ open MdModel MdModel.Win
 
 /-! ### stack words are 32-bit values -/
 
-theorem leAt_lt (m : Mem) : ∀ (w off : Nat), m.leAt off w < 256 ^ w := by
+theorem leAt_lt_w (m : Mem) : ∀ (w off : Nat), m.leAt off w < 256 ^ w := by
   intro w
   induction w with
   | zero => intro off; simp [Mem.leAt]
@@ -34,7 +34,7 @@ theorem read4_le {m : Mem} {a v : Nat} (h : m.read a 4 = some v) : v ≤ U32MAX 
     split at h
     · injection h with h
       subst h
-      have := leAt_lt m 4 (a - m.base)
+      have := leAt_lt_w m 4 (a - m.base)
       simp only [U32MAX]
       omega
     · cases h
